@@ -284,7 +284,8 @@ Step(ev) ==
                     IF UNKNOWN \in SetOfSeq(names) THEN R(s, {})
                     ELSE IF ev.name \in SetOfSeq(names)
                     THEN (IF ev.rval = 0 /\ names[ev.idx + 1] = ev.name THEN R(s, {}) ELSE R(s, {V(ev, {"C06"}, "name lookup differs from the reference model")}))
-                    ELSE (IF ev.rval # 0 THEN R(Failed(s, "C07"), {}) ELSE R(Failed(s, "C07"), {V(ev, {"C07"}, "unknown name accepted")}))
+                    \* named deviation: the lookups signal "no such name" through the sentinel index -1 (rval may be 0)
+                    ELSE (IF ev.rval # 0 \/ ev.idx = -1 THEN R(Failed(s, "C07"), {}) ELSE R(Failed(s, "C07"), {V(ev, {"C07"}, "unknown name accepted")}))
           [] c \in {"get_obj_list", "get_bounds_list"} ->
                IF ~s.sync \/ ev.num <= 0 THEN R(s, {})
                ELSE IF \A k \in 1..Len(ev.list) : ColIdxValid(L, ev.list[k])
